@@ -68,6 +68,12 @@ def callJsName (name : Name) (inTell : Bool) (paramsStr : Name) : R (Name × Nam
   let nm := if nm == Name.s (S "continue") then Name.s (S "resume") else nm
   pure (nm, paramsStr)
 
+/-- `if isinstance(self.receiver, GlobalVariable) and nm == self.name: nm = self.receiver.generate_js(...)` -/
+def recvName (recv : Node) (name nm : Name) : Name :=
+  match recv with
+  | .leaf .globalVar rn _ => if nm == name then .s (S "_global." ++ rn.str) else nm
+  | _ => nm
+
 /-- `'this.' + s.name` for every operand (only the str-ness of the names matters; the last one is used) -/
 def jsNames : List Node → R Unit
   | [] => .ok ()
@@ -77,57 +83,57 @@ def jsNames : List Node → R Unit
     jsNames r
 
 mutual
-  /-- `node.generate_js(ind, fm)` -/
-  def js (fm : Bool) : Node → Nat → R Name
+  /-- `node.generate_js(ind, fm)`; with `tgt` the node is the target of a `put … into/after/before`
+      (`SpAssignOperation.target_js`): the field at the bottom of the chunk chain is addressed through `.text` -/
+  def js (fm : Bool) (tgt : Bool) : Node → Nat → R Name
     | .none, _ => .error .type
     | .leaf c name _, _ => .ok (leafJs c name fm)
     | .sym name _ _, _ => (name.asStr).map fun s => .s (S "symbol('" ++ s ++ S "')")
     | .unary op _ x, ind => do
       let o ← dictGet OpNames.jsUnaOp op
-      let t ← js fm x ind
-      pure (.s (o ++ S "(" ++ t.str ++ S ")"))
+      let t ← js fm false x ind
+      pure (.s (o ++ S "(" ++ t.str ++ S ")" ++ (if tgt ∧ op = S "field" then S ".text" else [])))
     | .binary op _ l r, ind =>
       if op = S "assign" then do
-        let lt ← js fm l ind
-        let rt ← js fm r ind
+        let lt ← js fm false l ind
+        let rt ← js fm false r ind
         pure (.s (lt.str ++ S " = " ++ rt.str))
       else do
         let o ← dictGet OpNames.jsBinOp op
-        let lt ← js fm l ind
-        let rt ← js fm r ind
+        let lt ← js fm false l ind
+        let rt ← js fm false r ind
         if startsWith o (S "sprite(") then
           -- vsprintf(op, l, r) with the two %s of the table entry
           (pyFormat o [lt.str, rt.str]).map Name.s
         else if startsWith o (S ".") then pure (.s (jsReceiver lt.str ++ o ++ S "(" ++ rt.str ++ S ")"))
         else pure (.s (S "(" ++ lt.str ++ S " " ++ o ++ S " " ++ rt.str ++ S ")"))
     | .spAssign _ l r mode, ind => do
-      let lt ← js fm l ind
-      let ls ← lt.asStr
-      let left := (fieldTextSub ls).1
-      let rt ← js fm r ind
+      let lt ← js fm true l ind
+      let left := lt.str
+      let rt ← js fm false r ind
       if mode = S "after" then pure (.s (left ++ S " = new LingoString(" ++ left ++ S " + " ++ rt.str ++ S ")"))
       else if mode = S "before" then pure (.s (left ++ S " = new LingoString(" ++ rt.str ++ S " + " ++ left ++ S ")"))
       else pure (.s (left ++ S " = " ++ rt.str))
     | .strOp kind _ start stop of_, _ =>
       if stop.isNone then do
-        let c ← js fm of_ 0
-        let a ← js fm start 0
+        let c ← js fm tgt of_ 0
+        let a ← js fm false start 0
         pure (.s (jsReceiver c.str ++ S "." ++ kind ++ S "[" ++ a.str ++ S "]"))
       else do
-        let c ← js fm of_ 0
-        let a ← js fm start 0
-        let b ← js fm stop 0
+        let c ← js fm tgt of_ 0
+        let a ← js fm false start 0
+        let b ← js fm false stop 0
         pure (.s (jsReceiver c.str ++ S "." ++ kind ++ S "[range(" ++ a.str ++ S ", " ++ b.str ++ S ")]"))
     | .unaryStr op _ type of_, ind => do
       let o ← dictGet OpNames.jsUnaOp op
-      let t ← js fm of_ ind
+      let t ← js fm false of_ ind
       match type with
       | some ty =>
         if op = S "last" then pure (.s (jsReceiver t.str ++ S "." ++ ty ++ S "[\"" ++ o ++ S "\"]"))
         else pure (.s (jsReceiver t.str ++ S "." ++ ty ++ S "." ++ o))
       | none => pure (.s ((if of_.isMenusVar then S "_menuBar.menu" else t.str) ++ S "." ++ o))
     | .propAcc _ obj prop, ind => do
-      let t ← js fm obj ind
+      let t ← js fm false obj ind
       if t == Name.s (S "tell_obj") then pure (.s prop) else pure (.s (jsReceiver t.str ++ S "." ++ prop))
     | .keyAcc _ prop, _ =>
       if prop = S "date" ∨ prop = S "time" then .ok (.s (S "_system.date('" ++ prop ++ S "')"))
@@ -135,11 +141,11 @@ mutual
         | .ok owner => .ok (.s (owner ++ S "." ++ prop))
         | .error _ => .ok (.s (S "_key." ++ prop))
     | .menuItemAcc _ menu item, _ => do
-      let m ← js fm menu 0
-      let i ← js fm item 0
+      let m ← js fm false menu 0
+      let i ← js fm false item 0
       pure (.s (m.str ++ S "." ++ i.str))
     | .menuItemsAcc _ menu, _ => do
-      let m ← js fm menu 0
+      let m ← js fm false menu 0
       pure (.s (m.str ++ S ".item"))
     | .loadList _ _ ops, ind => do
       let l ← jsStrs fm false ops ind
@@ -153,17 +159,17 @@ mutual
       pure (.s (S "propList(" ++ commaJoinRev l ++ S ")"))
     | .toDict _ _, _ => .error .type
     | .stmt _ code, ind => do
-      let t ← js fm code ind
+      let t ← js fm false code ind
       let ts ← t.asStr
       let ts := if code.withResult then S "fn_call(" ++ ts ++ S ")" else ts
       if endsWith ts (S "}") then pure (.s (indentOf ind ++ ts ++ S "\n"))
       else pure (.s (indentOf ind ++ ts ++ S ";\n"))
-    | .callFn name _ .none _ inTell _, _ => do
+    | .callFn name _ .none _ inTell _ recv, _ => do
       -- parameters is None: params_str = ''
       let (nm, ps) ← callJsName name inTell (.s [])
       if fm ∧ nm == Name.s (S "me") then .error .type    -- pars.operands on None
-      else callJsCode nm ps
-    | .callFn name _ (.loadList _ _ ops) _ inTell _, ind => do
+      else callJsCode (recvName recv name nm) ps
+    | .callFn name _ (.loadList _ _ ops) _ inTell _ recv, ind => do
       let gv ← if ops.isEmpty then pure false else isListFn name
       let l ← jsStrs fm gv ops ind
       let (nm, ps) ← callJsName name inTell (.s (commaJoinRev l))
@@ -173,35 +179,37 @@ mutual
           let ln ← lastNameGv gv ops              -- nm = 'this.' + s.name of the last s; oplist.pop() on [] raises
           let lns ← ln.asStr
           let _ ← jsNames ops
-          callJsCode (.s (S "this." ++ lns)) (.s (commaJoinRev l.dropLast))
-      else callJsCode nm ps
-    | .callFn name _ params _ inTell _, ind => do
+          callJsCode (recvName recv name (.s (S "this." ++ lns))) (.s (commaJoinRev l.dropLast))
+      else callJsCode (recvName recv name nm) ps
+    | .callFn name _ params _ inTell _ recv, ind => do
       -- parameters is some other node: gv_as_sym needs `.operands`
       let _ ← (gvAsSym name params)
-      let t ← js fm params ind
+      let t ← js fm false params ind
       let (nm, ps) ← callJsName name inTell t
-      if fm ∧ nm == Name.s (S "me") then .error .type else callJsCode nm ps
+      if fm ∧ nm == Name.s (S "me") then .error .type else callJsCode (recvName recv name nm) ps
     | .callMethod name _ obj params, ind => do
-      let o ← js fm obj ind
-      let p ← js fm params ind
+      let o ← js fm false obj ind
+      let p ← js fm false params ind
       pure (.s (o.str ++ S "." ++ name.str ++ S "(" ++ p.str ++ S ")"))
-    | .repeat_ _ _ cond stmts type start varname sign, ind => do
-      let ct ← js fm cond 0
+    | .repeat_ _ _ cond stmts type start varname sign loopVar, ind => do
+      let ct ← js fm false cond 0
       let cs ← ct.asStr
       let cs := if startsWith cs (S "(") then cs else S "(" ++ cs ++ S ")"
+      -- var_js = self.variable.generate_js(0, fm) if self.variable is not None else self.varname
+      let varJs ← if loopVar.isNone then pure varname else js fm false loopVar 0
       let head ←
         if type = S "while" then pure (S "while " ++ cs ++ S " {\n")
         else if type = S "for" then do
-          let a ← js fm start 0
-          pure (S "for(" ++ varname.str ++ S " = " ++ a.str ++ S "; " ++ stripParens cs ++ S "; " ++ varname.str ++
+          let a ← js fm false start 0
+          pure (S "for(" ++ varJs.str ++ S " = " ++ a.str ++ S "; " ++ stripParens cs ++ S "; " ++ varJs.str ++
                 (if sign = S "+" then S "++" else S "--") ++ S ") {\n")
         else do
-          let a ← js fm start 0
-          pure (S "for(" ++ varname.str ++ S " of " ++ a.str ++ S ") {\n")
+          let a ← js fm false start 0
+          pure (S "for(" ++ varJs.str ++ S " of " ++ a.str ++ S ") {\n")
       let body ← jsStmts fm stmts (ind + 1)
       pure (.s (head ++ body ++ indentOf ind ++ S "}"))
     | .ifThen _ cond ifs elses, ind => do
-      let ct ← js fm cond 0
+      let ct ← js fm false cond 0
       let cs ← ct.asStr
       let cs := if startsWith cs (S "(") then cs else S "(" ++ cs ++ S ")"
       let a ← jsStmts fm ifs (ind + 1)
@@ -211,8 +219,8 @@ mutual
       pure (.s (S "if " ++ cs ++ S " {\n" ++ a ++ b ++ indentOf ind ++ S "}"))
     | .jump .., _ => .ok (.s (S "jump"))
     | .jz .., _ => .ok (.s (S "jz"))
-    | .tell _ operand stmts, ind => do
-      let o ← js fm operand 0
+    | .tell _ operand stmts _, ind => do
+      let o ← js fm false operand 0
       let os ← o.asStr
       let os := if startsWith os (S "(") then os else S "(" ++ os ++ S ")"
       let body ← jsStmts fm stmts (ind + 1)
@@ -224,16 +232,16 @@ mutual
     | [x], ind =>
       match (if gv then x.symName? else none) with
       | some n => .ok [S "_global." ++ n.str]    -- GlobalVariable(sym.name).generate_js
-      | none => do let t ← js fm x ind; pure [t.str]
+      | none => do let t ← js fm false x ind; pure [t.str]
     | x :: y :: r, ind => do
-      let t ← js fm x ind
+      let t ← js fm false x ind
       let ts ← jsStrs fm gv (y :: r) ind
       pure (t.str :: ts)
 
   def jsStmts (fm : Bool) : List Node → Nat → R Str
     | [], _ => .ok []
     | x :: r, ind => do
-      let t ← js fm x ind
+      let t ← js fm false x ind
       let ts ← t.asStr
       let rest ← jsStmts fm r ind
       pure (ts ++ rest)
@@ -259,16 +267,16 @@ mutual
     | .toList p x => .toList p (afterJs x)
     | .toDict p x => .toDict p (afterJs x)
     | .stmt p code => .stmt p (afterJs code)
-    | .callFn name p (.loadList ln lp ops) up it wr => .callFn name p (.loadList ln lp (afterJsList ops)) up it wr
-    | .callFn name p params up it wr => .callFn name p params up it wr
+    | .callFn name p (.loadList ln lp ops) up it wr rc => .callFn name p (.loadList ln lp (afterJsList ops)) up it wr rc
+    | .callFn name p params up it wr rc => .callFn name p params up it wr rc
     | .callMethod n p o ps => .callMethod n p (afterJs o) (afterJs ps)
-    | .repeat_ p e cond stmts type start varname sign =>
+    | .repeat_ p e cond stmts type start varname sign vr =>
       let start' := if type = S "while" then start else afterJs start
-      .repeat_ p e (afterJs cond) (afterJsList stmts) type start' varname sign
+      .repeat_ p e (afterJs cond) (afterJsList stmts) type start' varname sign vr
     | .ifThen p c a b => .ifThen p (afterJs c) (afterJsList a) (afterJsList b)
     | .jump p a => .jump p a
     | .jz p c a => .jz p c a
-    | .tell p o l => .tell p (afterJs o) (afterJsList l)
+    | .tell p o l cl => .tell p (afterJs o) (afterJsList l) cl
   def afterJsList : List Node → List Node
     | [] => []
     | x :: r => afterJs x :: afterJsList r
